@@ -115,8 +115,10 @@ def r_listpair(E):
                 handed = norm(sup[0].args[-1]) if sup[0].args else None
                 att = [cl for cl in _calls(fn) if isinstance(cl.func, ast.Attribute) and cl.func.attr ==
                        "set_modeling_obj_container" and norm(cl.func.value) == wname]
+                from ..astutil import source_order
+                rank = source_order(fn)
                 ok = handed == wname and att and [norm(a) for a in att[-1].args] == ATTACH_ARGS \
-                    and att[-1].lineno > sup[0].lineno
+                    and rank[id(att[-1])] > rank[id(sup[0])]
             if not ok:
                 res.findings.append(Finding(
                     "R-LISTPAIR", f"{where} attach",
